@@ -124,15 +124,14 @@ Proof.
   destruct (facts_alln d) as (_ & R & J & W & P).
   assert (Hg : g_resource (ml_pok (eokn d)) (t0 ++ [e']) = true) by (rewrite ml_resource_g; exact Hd).
   assert (Hrender : forall ind els cs, ml_pok (eokn d) els = true -> 1 <= ind ->
-            exists V cs', render_value ind (Pattern els) cs = (V, cs') /\ ml_value_layout (etextn d) els V).
-  { intros ind els cs0 Hp Hind. destruct (ml_pattern_parts (eokn d) els Hp) as (_ & Hs & _).
-    apply (render_value_ml_layout (eokn d) (etextn d) R ind els cs0 Hs Hind). }
-  pose proof (render_entries_d7 (ml_pok (eokn d)) (ml_value_layout (etextn d)) Hrender e e' Hpair t0 Hg Hu) as HL.
-  assert (HRL : gresource_layout (ml_value_layout (etextn d)) (t0 ++ [e']) (render [] (t0 ++ [e]))).
-  { rewrite render_nil. apply (grl (ml_value_layout (etextn d)) 0 [] (t0 ++ [e']) _ (bl_nil) HL). }
-  destruct (g_parse_layout (ml_pok (eokn d)) (ml_value_layout (etextn d)) (srel (goodn d)) (t0 ++ [e']) (render [] (t0 ++ [e]))) as (t' & E & Hrel).
-  - intros els V T used c nx p n Hp. apply (get_pattern_ml (eokn d) (etextn d) (goodn d) R J P _ els V T used c nx p n Hp).
-  - intros els V Hp. apply (ml_value_layout_strip (eokn d) (etextn d) els V Hp).
+            exists V cs', render_value ind (Pattern els) cs = (V, cs') /\ wl_value_layout (etextn d) els V).
+  { intros ind els cs0 Hp Hind. apply (render_value_wl_layout (eokn d) (etextn d) (goodn d) R P ind els cs0 Hp Hind). }
+  pose proof (render_entries_d7 (ml_pok (eokn d)) (wl_value_layout (etextn d)) Hrender e e' Hpair t0 Hg Hu) as HL.
+  assert (HRL : gresource_layout (wl_value_layout (etextn d)) (t0 ++ [e']) (render [] (t0 ++ [e]))).
+  { rewrite render_nil. apply (grl (wl_value_layout (etextn d)) 0 [] (t0 ++ [e']) _ (bl_nil) HL). }
+  destruct (g_parse_layout (ml_pok (eokn d)) (wl_value_layout (etextn d)) (srel (goodn d)) (t0 ++ [e']) (render [] (t0 ++ [e]))) as (t' & E & Hrel).
+  - intros els V T used c nx p n Hp. apply (get_pattern_wl (eokn d) (etextn d) (goodn d) R J P _ els V T used c nx p n Hp).
+  - intros els V Hp. apply (wl_value_layout_strip (eokn d) (etextn d) els V Hp).
   - exact Hg.
   - exact HRL.
   - exists t'. split; [exact E|]. apply jrel_entries.
